@@ -2073,3 +2073,54 @@ mod test {
         assert_eq!(obj, obj2);
     }
 }
+
+/// Verification hooks (only with `--cfg sonic_rs_verif`)
+#[cfg(sonic_rs_verif)]
+#[allow(missing_docs)]
+pub mod verif_hooks {
+    use super::*;
+
+    pub const ARR_NODE: u64 = Meta::ARR_NODE;
+    pub const OBJ_NODE: u64 = Meta::OBJ_NODE;
+    pub const STR_NODE: u64 = Meta::STR_NODE;
+    pub const RAWNUM_NODE: u64 = Meta::RAWNUM_NODE;
+    pub const ROOT_NODE: u64 = Meta::ROOT_NODE;
+    pub const KIND_BITS: u64 = Meta::KIND_BITS;
+    pub const LEN_OFFSET: u64 = Meta::LEN_OFFSET;
+    pub const IDX_MASK: u64 = Meta::IDX_MASK;
+    pub const PADDING_SIZE: usize = Value::PADDING_SIZE;
+
+    /// pack then unpack: (raw word, idx, len)
+    pub fn meta_pack_unpack(kind: u64, idx: u32, len: u32) -> (u64, u32, u32) {
+        let m = Meta::pack_dom_node(kind, idx, len);
+        let n = m.unpack_dom_node();
+        (unsafe { m.val }, n.idx, n.len)
+    }
+
+    fn arena_ptr(v: &Value) -> *const Shared {
+        if v.meta.get_kind() == Meta::ROOT_NODE {
+            v.meta.unpack_root()
+        } else if v.meta.in_shared() {
+            v.unpack_shared() as *const Shared
+        } else {
+            std::ptr::null()
+        }
+    }
+
+    /// strong count of the arena a value lives in (None: not arena-backed)
+    pub fn arena_strong_count(v: &Value) -> Option<usize> {
+        let shared = arena_ptr(v);
+        if shared.is_null() {
+            return None;
+        }
+        unsafe {
+            let arc = ManuallyDrop::new(Arc::from_raw(shared));
+            Some(Arc::strong_count(&arc))
+        }
+    }
+
+    /// address of the arena a value lives in (0: none)
+    pub fn arena_addr(v: &Value) -> usize {
+        arena_ptr(v) as usize
+    }
+}
